@@ -11,7 +11,10 @@ class C09(Prop):
     rule = ("malformed-first stream over whole passes of the real funnel.Worker: literal plugin result vectors of "
             "any length (0, <, =, > the input), any kind mix, conditional processors (every match pattern for "
             "n <= 3 quick / 6 thorough in the 'cond' mode), nil/empty/duplicate source positions, destination "
-            "replies empty/too many/wrong/duplicate/out-of-order/error, write errors, Source.Ack errors; a panic "
+            "replies empty/too many/wrong/duplicate/out-of-order/lost/error at any ack chunk (the 'dest' mode "
+            "enumerates, for m <= 4 quick / 5 thorough records at the destination or the DLQ destination, every "
+            "chunking of the acks x every chunk index x every such reply, surplus 1..m, every ack index), write "
+            "errors, Source.Ack errors; a panic "
             "(recover) or a hang (per-case deadline) is an observation; distinct = distinct input JSON; non-trivial "
             "as for C08")
     trusted_base = fc.TRUSTED
@@ -30,11 +33,13 @@ class C09(Prop):
             rnd = [["--seed", str(seed), "--n", "60"] for _ in range(9)]
             cond = [["--mode", "cond:%d:4" % i] for i in range(4)]
             v1 = [["--mode", "v1:%d:3" % i, "--seed", str(seed), "--n", "60"] for i in range(3)]
-            return rnd + cond + v1
+            dest = [["--mode", "dest:%d:4" % i] for i in range(4)]
+            return rnd + cond + dest + v1
         rnd = [["--seed", str(seed), "--n", "2500"] for _ in range(NCPU)]
         cond = [["--mode", "cond:%d:%d" % (i, NCPU)] for i in range(NCPU)]
         v1 = [["--mode", "v1:%d:8" % i, "--seed", str(seed), "--n", "100"] for i in range(8)]
-        return rnd + cond + v1
+        dest = [["--mode", "dest:%d:%d" % (i, NCPU)] for i in range(NCPU)]
+        return rnd + cond + dest + v1
 
     def search_shards(self, tier, seed, round_no):
         return [["--seed", str(seed + 7919 * (round_no + 1) + k), "--n", "150"] for k in range(NCPU)]
